@@ -88,6 +88,25 @@ def _is_basic_index(n: ast.AST, kinds: Dict[str, str]) -> Optional[bool]:
     return None
 
 
+def _scalar_valued(v) -> bool:
+    """The expression is a Python number whatever its operands are: a numeric constant, len()/int()/float()/bool(), a str/list .count/.index/.find, or a
+    conditional / arithmetic combination of such."""
+    if isinstance(v, ast.UnaryOp) and isinstance(v.op, (ast.USub, ast.UAdd, ast.Not)):
+        return isinstance(v.op, ast.Not) or _scalar_valued(v.operand)
+    if isinstance(v, ast.Constant):
+        return isinstance(v.value, (int, float, bool)) and v.value is not None
+    if isinstance(v, ast.IfExp):
+        return _scalar_valued(v.body) and _scalar_valued(v.orelse)
+    if isinstance(v, ast.BinOp):
+        return _scalar_valued(v.left) and _scalar_valued(v.right)
+    if isinstance(v, ast.Call):
+        if isinstance(v.func, ast.Name) and v.func.id in ("len", "int", "float", "bool"):
+            return True
+        if isinstance(v.func, ast.Attribute) and v.func.attr in ("count", "index", "find", "rfind") and len(v.args) == 1 and isinstance(v.args[0], ast.Constant) and isinstance(v.args[0].value, (str, bytes)):
+            return True
+    return False
+
+
 @dataclass
 class WriteSite:
     func: str
@@ -221,10 +240,7 @@ class Analyzer:
             for fi in c.methods.values():
                 for x in ast.walk(fi.node):
                     if isinstance(x, ast.Assign) and isinstance(x.targets[0], ast.Attribute) and u(x.targets[0].value) == "self":
-                        v = x.value
-                        if isinstance(v, ast.UnaryOp) and isinstance(v.op, (ast.USub, ast.UAdd)):
-                            v = v.operand
-                        if isinstance(v, ast.Constant) and isinstance(v.value, (int, float, bool)) and v.value is not None:
+                        if _scalar_valued(x.value):
                             names.add(x.targets[0].attr)
         self._scalar_attrs[k] = names
         return names
